@@ -3,6 +3,7 @@ package test
 import (
 	"bytes"
 	"errors"
+	"strings"
 	"io/fs"
 	"os"
 	"path/filepath"
@@ -66,11 +67,39 @@ func (m *modelFS) install() {
 		}
 		return fsInfo{n}, nil
 	})
+	verifrt.Replace("os.Stat", func(p string) (fs.FileInfo, error) {
+		// Stat follows symbolic links (one level is enough for the modelled trees)
+		n, ok := m.byPath[p]
+		if !ok {
+			return nil, errFS
+		}
+		if kindOf(n.mode) == 1 {
+			q := n.target
+			if len(q) == 0 || q[0] != '/' {
+				q = p[:strings.LastIndexByte(p, '/')+1] + q
+			}
+			t, ok := m.byPath[q]
+			if !ok {
+				return nil, errFS
+			}
+			return fsInfo{t}, nil
+		}
+		return fsInfo{n}, nil
+	})
 	verifrt.Replace("os.ReadDir", func(p string) ([]fs.DirEntry, error) {
 		m.readdir[p]++
 		n, ok := m.byPath[p]
 		if !ok {
 			return nil, errFS
+		}
+		if kindOf(n.mode) == 1 { // the kernel resolves a symlink handed to readdir
+			q := n.target
+			if len(q) == 0 || q[0] != '/' {
+				q = p[:strings.LastIndexByte(p, '/')+1] + q
+			}
+			if n, ok = m.byPath[q]; !ok {
+				return nil, errFS
+			}
 		}
 		var out []fs.DirEntry
 		for _, c := range n.children {
